@@ -60,7 +60,7 @@ def main():
         meta["demo_with_change"] = "fail" if rc != 0 else "PASSES (change not demonstrated)"
         meta["demo_with_change_output_tail"] = o[-1200:]
         os.remove(demo_path)
-        _, diff = run(["git", "diff"], wt)
+        _, diff = run(["git", "diff", "HEAD"], wt)
         t0 = time.time()
         rc, o = run(["go", "test", "-vet=off", "-count=1", "-timeout", "25m", "-json", "./..."], wt, timeout=3000)
         failed = set()
